@@ -328,6 +328,15 @@ func runProperty(cfg RunConfig, evidencePath, knownPath, baselinePath string, up
 	for _, l := range knownLines {
 		fmt.Println(l)
 	}
+	probesRan, probesBad, probeFiles := e.runProbes(cfg)
+	for i, n := range probesBad {
+		fmt.Printf("VIOLATION property=%s replay=%s\n", cfg.Prop, probeFiles[i])
+		fmt.Printf("  assumed clause %s fails its bounded probe on the real code\n", n)
+		violations++
+	}
+	for _, p := range probesRan {
+		e.noteAssumption("assumed clause tested by a bounded probe on every run (not proved): " + p)
+	}
 	// baseline obligations that can no longer be generated
 	var missing []string
 	for n := range inBase {
